@@ -190,6 +190,18 @@ Proof.
   repeat constructor; cbn; intros H; repeat (destruct H as [H|H]; try discriminate); auto.
 Qed.
 
+(* the exit status (and the counts) for one input and one override table: the same whatever -json / -v / -vv say *)
+Theorem json_plain_same_exit ov x j v j' v' :
+  exit (run_lint {| json := j; verbosity := v; overrides := ov |} x) = exit (run_lint {| json := j'; verbosity := v'; overrides := ov |} x) /\
+  summary (run_lint {| json := j; verbosity := v; overrides := ov |} x) = summary (run_lint {| json := j'; verbosity := v'; overrides := ov |} x).
+Proof. apply flags_irrelevant. intros r. reflexivity. Qed.
+
+Lemma config_spellings_ok :
+  map flag_of_name [flag_json; flag_verbose_warning; flag_verbose_info] = [Some FJson; Some FV; Some FVV] /\
+  map (fun p => yverbose_of (Some (fst p))) yaml_verbose_levels = [YWarning; YInfo] /\
+  yverbose_of None = YNone.
+Proof. vm_compute. repeat split; reflexivity. Qed.
+
 (* ------------------------------------------------------------------ witnesses *)
 Section Witness.
 Import Coq.Strings.String.
@@ -206,6 +218,21 @@ Example ex_doc_files :
   doc_files c ex_fds = [(r "main.vcl", [(r "a/err", SevWarning)])] /\
   lookup (r "other.vcl") (doc_files c ex_fds) = None.
 Proof. vm_compute. split; reflexivity. Qed.
+
+(* an include graph with diagnostics in two modules and in the main file, one module fully ignored by an override *)
+Example ex_doc_files_modules :
+  let r := Strings.String.list_byte_of_string in
+  let c := {| json := true; verbosity := 0; overrides := overrides_of [(r "c/info", r "IGNORE")] |} in
+  let fds := [(r "main.vcl", (r "a/err", SevError)); (r "m1.vcl", (r "b/warn", SevWarning)); (r "m2.vcl", (r "a/err", SevError));
+              (r "m1.vcl", (r "a/err", SevError)); (r "m3.vcl", (r "c/info", SevInfo)); (r "main.vcl", (r "c/info", SevInfo))] in
+  doc_files c fds = [(r "main.vcl", [(r "a/err", SevError)]); (r "m1.vcl", [(r "b/warn", SevWarning); (r "a/err", SevError)]);
+                     (r "m2.vcl", [(r "a/err", SevError)])].
+Proof. vm_compute. reflexivity. Qed.
+
+Example ex_json_plain_same_exit :
+  forall j v j' v', exit (run_lint {| json := j; verbosity := v; overrides := ex_overrides |} ex_input)
+                  = exit (run_lint {| json := j'; verbosity := v'; overrides := ex_overrides |} ex_input).
+Proof. intros. apply json_plain_same_exit. Qed.
 
 Example ex_ignore_override :
   let r := Strings.String.list_byte_of_string in
